@@ -319,6 +319,13 @@ class Interp:
             if isinstance(o.kind, K._None):
                 return z3.BoolVal(True)
             return K.opt_isnone(o) if isinstance(o.kind, K.Opt) else z3.BoolVal(False)
+        if isinstance(a, V) and isinstance(b, V) and isinstance(a.kind, (K._Str, K._Int)) and a.kind == b.kind \
+                and not self.spec:
+            # `is` between two strings / numbers: object identity, which equal values do not guarantee (interning is an
+            # implementation detail).  Identical objects are equal; nothing more is known.
+            same = self.p.fresh('is!same', z3.BoolSort())
+            self.p.assume(z3.Implies(same, a.t == b.t))
+            return same
         for v in (a, b):
             if isinstance(v, PyObj):
                 raise Unsupported('is on %r' % (v,))
@@ -382,6 +389,16 @@ class Interp:
             return self.result
         if name in self.ghost_locals:
             return self.ghost_locals[name]
+        if not self.spec and not getattr(self, 'ghost_mode', False) and self.x is not None and self.depth == 0:
+            # a local of the analysed function read before any assignment on this path
+            local_names = getattr(self.x, '_assigned', None)
+            if local_names is None:
+                from .stmts import stored_names
+                local_names = stored_names(self.x.node.body)[0] - {'$yield'}
+                self.x._assigned = local_names
+            if name in local_names and name not in self.p.globals:
+                raise PyRaise('UnboundLocalError', None,
+                              'local %r read before assignment at line %s' % (name, getattr(node, 'lineno', '?')))
         if name in self.p.globals:
             return self.p.globals[name]
         if name in self.w.consts:
